@@ -169,7 +169,7 @@ func minaBody(tal *tally) func(*engine.X) {
 		}
 		idPk := &schnorrlike.PublicKey[*pasta.PallasPoint, *pasta.PallasScalar]{PublicKeyTrait: signatures.PublicKeyTrait[*pasta.PallasPoint, *pasta.PallasScalar]{V: curveL.OpIdentity()}}
 		addStruct("key/identity(struct)", sg, idPk, C.Identity(), msg, raw)
-		for _, ma := range messageAlterations(raw, 0x01) {
+		for _, ma := range messageAlterations(raw, 0x01, engine.Thorough()) {
 			addStruct(ma.label, sg, pk, pkRef, minaMsg(ma.msg), ma.msg)
 		}
 		// structural message alterations of the ROInput itself
